@@ -167,8 +167,12 @@ func (r *Router) handleHTTPRequest(ctx *Context) {
 		ctx.Set(CTXCurrentRouteName, route.name)
 		ctx.Set(CTXCurrentRoutePath, path)
 
-		// append main handler to last
-		handlers = append(route.handlers, route.handler)
+		// global middleware + route middleware + main handler.
+		// Notice: always build a new slice, the shared slices must not be written while serving requests.
+		handlers = make(HandlersChain, 0, len(r.handlers)+len(route.handlers)+1)
+		handlers = append(handlers, r.handlers...)
+		handlers = append(handlers, route.handlers...)
+		handlers = append(handlers, route.handler)
 	} else if len(allowed) > 0 { // method not allowed
 		if len(r.noAllowed) == 0 {
 			r.noAllowed = HandlersChain{internal405Handler}
@@ -176,18 +180,13 @@ func (r *Router) handleHTTPRequest(ctx *Context) {
 
 		// add allowed methods to context
 		ctx.Set(CTXAllowedMethods, allowed)
-		handlers = r.noAllowed
+		handlers = combineHandlers(r.handlers, r.noAllowed)
 	} else { // not found route
 		if len(r.noRoute) == 0 {
 			r.noRoute = HandlersChain{internal404Handler}
 		}
 
-		handlers = r.noRoute
-	}
-
-	// has global middleware handlers
-	if len(r.handlers) > 0 {
-		handlers = append(r.handlers, handlers...)
+		handlers = combineHandlers(r.handlers, r.noRoute)
 	}
 
 	ctx.SetHandlers(handlers)
